@@ -45,6 +45,8 @@ def std_S(sc, d):
         return calsim.embed(p, [d[1] - 1], [[calsim.GAMMA[d[2]]]], sc.others)
     if d[0] == 'through':
         return calsim.embed(p, [d[1] - 1, d[2] - 1], [[0, 1], [1, 0]], sc.others)
+    if d[0] == 'full':
+        return calsim.embed(p, [d[1] - 1, d[2] - 1], d[3], sc.others)
     return calsim.embed(p, [d[1] - 1, d[2] - 1], [[calsim.GAMMA[d[3]], 0], [0, calsim.GAMMA[d[4]]]], sc.others)
 
 
@@ -199,9 +201,94 @@ def run(chk):
         if o[-1] != 'ok live=0':
             chk.violation('leak', '%s %dx%d: allocations remain after an add/solve history with failed attempts: %s' % (typ, n, n, o[-1]), sc.lines)
     unknown_histories(chk, exe, rng, (2 if quick else 15) * (3 if broken else 1))
+    if not chk.violations:
+        rect_histories(chk, exe, rng, (2 if quick else 12) * (3 if broken else 1))
     chk.samples = [[l[:100] for l in runs[0][2].lines[:6]]]
     if broken and not chk.violations:
         chk.violation('obligation', 'proof/correspondence obligations that no longer check:\n' + '\n'.join(broken[:30]), nofail=True)
+
+
+def rect_histories(chk, exe, rng, reps):
+    """rectangular calibrations (more ports than detectors or sources): reflects on a port whose own cell is not measured contribute no
+    equation, only leakage samples; any prefix of the standard list that determines the terms must solve to terms that fit an
+    independent device (checked on the saved error terms, as in C01)"""
+    import tempfile, shutil
+    from props import c02, calfile
+    tmpdir = tempfile.mkdtemp(prefix='verif-c20-')
+    try:
+        for rep in range(reps):
+            for typ, (r, c) in (('T8', (1, 2)), ('TE10', (1, 2)), ('U8', (2, 1)), ('UE10', (2, 1)), ('UE14', (2, 1)), ('E12', (2, 1))):
+                sc = c02.Sc(rng, typ, r, c, 1, form=rng.choice(['m', 'ab'])).begin()
+                L = []
+                for port in (1, 2):
+                    for code in (calsim.SHORT, calsim.OPEN, calsim.MATCH):
+                        L.append((('reflect', port, code), lambda port=port, code=code: sc.add_reflect(port, code)))
+                L.append((('through', 1, 2), lambda: sc.add_through(1, 2)))
+                for _ in range(2):
+                    S2 = [[calsim.rc(rng, 0.4), calsim.rc(rng, 0.5) + 0.4], [calsim.rc(rng, 0.5) + 0.4, calsim.rc(rng, 0.4)]]
+                    L.append((('full', 1, 2, S2), lambda S2=S2: sc.add_line_handles(1, 2, tuple(sc.scalar(S2[a][b]) for a in (0, 1) for b in (0, 1)), [S2])))
+                rng.shuffle(L)
+                if rep % 2 == 0:
+                    # the fully specified standards first, then the reflects on the port whose own cell is not measured, the others last
+                    unmeasured = 2 if r < c else (2 if c < r else 0)
+                    key = lambda e: 0 if e[0][0] in ('through', 'full') else (1 if e[0][1] == unmeasured else 2)
+                    L.sort(key=key)
+                full_rank = jacobian_rank(sc, [d for d, _ in L])
+                dut = sc.random_dut()
+                descs, steps = [], []
+                for k, (d, adder) in enumerate(L):
+                    adder()
+                    descs.append(d)
+                    sc.lines.append('cal solve %d' % sc.n)
+                    isolve = len(sc.lines) - 1
+                    det = full_rank > 0 and jacobian_rank(sc, descs) == full_rank
+                    if det and typ in ('TE10', 'UE10', 'UE14', 'E12'):
+                        # the leakage terms live outside the linear system: each off-diagonal measured cell needs a sample without a signal
+                        # path (vnacal_new(3)); a cell only ever seen through connected standards is silently taken as leakage-free
+                        for a_ in range(r):
+                            for b_ in range(c):
+                                if a_ != b_ and not any(not (a_ in ps_ and b_ in ps_) for ps_ in
+                                                        [([d_[1] - 1] if d_[0] == 'reflect' else [d_[1] - 1, d_[2] - 1]) for d_ in descs]):
+                                    det = False
+                    path = None
+                    if det:
+                        path = os.path.join(tmpdir, 'r%d-%s-%d.vnacal' % (rep, typ, k))
+                        sc.lines.append('cal add_calibration %d %s %d' % (sc.c, vlib.hexbytes(b'k%d' % k), sc.n))
+                        sc.lines += ['cal set_dprecision %d 1000' % sc.c, 'cal set_fprecision %d 1000' % sc.c, 'cal save %d %s' % (sc.c, vlib.hexbytes(path))]
+                    steps.append((isolve, det, path, k))
+                sc.lines += ['cal free 0', 'cal live']
+                out, rc, err = vlib.run_lines(exe, sc.lines, timeout=600)
+                tag0 = 'rectangular %s %dx%d %s' % (typ, r, c, sc.form)
+                if rc != 0 or len(out) != len(sc.lines):
+                    chk.violation('sanitizer-rect', '%s: crashed / sanitizer report in an add/solve history:\n%s' % (tag0, err[-1200:]), sc.lines[:len(out) + 1])
+                    return
+                ncal = 0
+                for (isolve, det, path, k) in steps:
+                    chk.evaluations += 1
+                    tag = '%s after %d standards %s' % (tag0, k + 1, [d[0] + str(d[1]) for d in descs[:k + 1]])
+                    if not det:
+                        chk.count('rect_undetermined_' + ('ok' if out[isolve].startswith('ok') else 'refused'))
+                        continue
+                    if not out[isolve].startswith('ok'):
+                        chk.violation('rect-determining-refused', '%s: the standards determine the error terms but vnacal_new_solve failed: %s' % (tag, out[isolve][:80]), sc.lines[:isolve + 1])
+                        return
+                    try:
+                        cal = calfile.load(path, exe)[ncal]
+                        res = calfile.residual(cal, 0, dut[0], sc.box.measure(dut[0], 0))
+                    except Exception as ex:
+                        chk.violation('rect-savefile', '%s: cannot interpret the saved calibration: %r' % (tag, ex), sc.lines[:isolve + 5])
+                        return
+                    ncal += 1
+                    if not res <= 1e-8:
+                        chk.violation('rect-determining-wrong', '%s: solve succeeded on a determining set but the error terms do not fit an independent device (residual %.3e)' % (tag, res), sc.lines[:isolve + 5])
+                        return
+                    chk.count('rect_determining_solved')
+                    chk.distinct.add(('rect', typ, k, rep))
+                if out[-1] != 'ok live=0':
+                    chk.violation('rect-leak', '%s: allocations remain: %s' % (tag0, out[-1]), sc.lines)
+                    return
+    finally:
+        shutil.rmtree(tmpdir, ignore_errors=True)
 
 
 def unknown_histories(chk, exe, rng, reps):
